@@ -113,6 +113,21 @@ NegProg(n, al) ==
           CallE(V("w1"), <<V("c"), n.rhs>>), Set("s1", ReadAll), I(0)>>
    ELSE <<Set("y1", Asg(n.op, Via(al), Hide(n.rty, n.rhs))), Set("s1", ReadAll), I(0)>>)
 NegCases == {[n |-> n, al |-> al] : n \in NegPool, al \in {"c", "arr", "st", "par"}}
+\* a cell of a NARROW type handed to something that holds cells of a WIDER type (parameter, cell of cells, closure result,
+\* array of cells), written there with a value outside the narrow type, then used through its own name as what it was
+\* declared to be: refused; if accepted, the run must not go wrong
+WidenUse(ty) == CASE ty = WInt -> Bin("*", Deref(V("c")), I(2)) [] ty = WStr -> Bin("+", Deref(V("c")), S(<<97>>))
+                  [] ty = WArr(WInt) -> Bin("+", At(Deref(V("c")), I(0)), I(1)) [] OTHER -> Deref(V("c"))
+WidenNeg(ty, init, wide, other, route) ==
+  <<Set("c", MutE(ty, init))>> \o
+  (CASE route = "param" -> <<FnDecl("w1", <<P("q", WMut(wide))>>, WVoid, <<Asg("=", V("q"), other), Ret0>>), CallE(V("w1"), <<V("c")>>)>>
+     [] route = "cellcell" -> <<Set("cc", MutE(WMut(wide), V("c"))), Asg("=", Deref(V("cc")), other)>>
+     [] route = "array" -> <<Set("arr", Hide(WArr(WMut(wide)), ArrE(<<V("c")>>))), Asg("=", At(V("arr"), I(0)), other)>>
+     [] route = "closure" -> <<FnDecl("get", <<>>, WMut(wide), <<Ret(V("c"))>>), Asg("=", CallE(V("get"), <<>>), other)>>)
+  \o <<Set("z", WidenUse(ty)), V("z")>>
+WidenSeq == SetToSeq({<<n, r>> : n \in 1..3, r \in {"param", "cellcell", "array", "closure"}})
+WidenOf(n) == CASE n = 1 -> <<WInt, I(1), IF_, F(5)>> [] n = 2 -> <<WStr, S(<<98>>), WMulti(<<WStr, WInt>>), I(3)>>
+                [] n = 3 -> <<WArr(WInt), ArrE(<<I(1)>>), WArr(IF_), ArrE(<<F(5)>>)>>
 NegSeq == SetToSeq(NegCases)
 
 \* FreshCells: `mut' creates a new cell EVERY time it is evaluated — in a function called twice, in a loop body,
@@ -192,10 +207,21 @@ WideProg(k) ==
     [] k = "empty-array" ->
          <<Set("e", Hide(WArr(WInt), ArrE(<<>>))), Set("c", MutU(WArr(WInt), V("e"))), Asg("+=", V("c"), ArrE(<<I(1)>>)),
            Set("t", IfSet("d", WMut(WArr(WInt)), V("c"), I(1), I(0))), TupE(<<V("t"), Deref(V("c"))>>)>>
+    \* the untyped cell is made INSIDE a closure from a captured name of wider static type (the specialisation pass
+    \* knows the value; the cell must still be a cell of the static type)
+    [] k = "captured-union" ->
+         <<Set("u", Hide(IF_, I(1))), FnDecl("make", <<>>, WMut(IF_), <<Ret(MutU(IF_, V("u")))>>),
+           Set("c", CallE(V("make"), <<>>)), Asg("=", V("c"), F(5)),
+           Set("t", IfSet("d", WMut(IF_), V("c"), I(1), I(0))), TupE(<<V("t"), Deref(V("c"))>>)>>
+    [] k = "captured-union-in-map" ->
+         <<Set("u", Hide(IF_, I(1))),
+           Set("cs", CollectE(MapE(IterE(ArrE(<<I(7), I(8)>>)), FnE(<<P("q", WInt)>>, WMut(IF_), <<Ret(MutU(IF_, V("u")))>>)))),
+           Asg("=", At(V("cs"), I(0)), F(5)),
+           Set("t", IfSet("d", WArr(WMut(IF_)), V("cs"), I(1), I(0))), TupE(<<V("t"), Deref(At(V("cs"), I(0)))>>)>>
     [] k = "hidden-union" ->
          <<Set("u", Hide(IF_, I(1))), Set("c", MutU(IF_, V("u"))), Set("al", V("c")), Asg("=", V("al"), F(5)),
            Set("t", IfSet("d", WMut(WInt), V("c"), I(1), I(0))), TupE(<<V("t"), Deref(V("c"))>>)>>
-WideSeq == <<"union-param", "any-param", "empty-array", "hidden-union">>
+WideSeq == <<"union-param", "any-param", "empty-array", "hidden-union", "captured-union", "captured-union-in-map">>
 WideOut(i) == Outcome(Run(WideProg(WideSeq[i]), 2000))
 WideLaw == \A i \in 1..Len(WideSeq) :
   \/ (WideOut(i).status = "value" /\ WideOut(i).v.es[1] = IntV(IF WideSeq[i] = "hidden-union" THEN 0 ELSE 1))
@@ -253,6 +279,10 @@ Emit ==
   /\ ndJsonSerialize(IOEnv.VERIF_OUT \o "/c13_neg_cases.ndjson",
         [i \in 1..Len(NegSeq) |-> [id |-> "c13-neg-" \o ToString(i), suite |-> "c13", negative |-> TRUE,
                                    prog |-> NegProg(NegSeq[i].n, NegSeq[i].al),
-                                   exp |-> [status |-> "rejected", v |-> VoidV, log |-> <<>>]]])
+                                   exp |-> [status |-> "rejected", v |-> VoidV, log |-> <<>>]]]
+        \o [i \in 1..Len(WidenSeq) |-> LET w == WidenOf(WidenSeq[i][1]) IN
+               [id |-> "c13-neg-widen-" \o ToString(WidenSeq[i][1]) \o "-" \o WidenSeq[i][2], suite |-> "c13", negative |-> TRUE,
+                prog |-> WidenNeg(w[1], w[2], w[3], w[4], WidenSeq[i][2]),
+                exp |-> [status |-> "rejected", v |-> VoidV, log |-> <<>>]]])
   /\ PrintT(<<"CASES", N, Len(NegSeq)>>)
 =============================================================================
